@@ -716,6 +716,41 @@ def judge_trace(ctx, kind: int, n: int, geo, tr: Trace, r: int, what: str, admit
     ctx.case((what, kind, n, tuple(map(tuple, moves)), tuple(tr.cur[r][0]), geo["exp"]), nontrivial=T > 1)
 
 
+def judge_batch(ctx, kind: int, n: int, geos, tr: Trace, what: str):
+    """the BATCHED Lean model (`batchStepP`: column-wise `_step` with the masked in-place overwrite of rec_best)
+    against the real batch: every observable of every row after every step."""
+    geos = [as_geo(g) for g in geos]
+    B = len(geos)
+    T = len(tr.moves[0])
+    secs = [J(v for row in geom.D_ticks(g["pts"]) for v in row) for g in geos]
+    secs += [J(tr.cur[r][0]) for r in range(B)]
+    for t in range(T):
+        secs += [J(tr.moves[r][t]) for r in range(B)]
+    f = parse_fields(ctx.driver.ask(f"improve.bsteps {kind} {n} {B} | " + " | ".join(secs)))
+    if "rows" not in f:
+        ctx.disagreement("improve.bsteps driver error", {"reply": str(f)[:300]})
+        return
+    for r, row in enumerate(f["rows"].split("#")):
+        cur, best, ccur, cbsf, rew, vt = [c.split(";") for c in row.split("|")]
+        for t in range(T + 1):
+            bad = None
+            if ilist(cur[t]) != tr.cur[r][t]:
+                bad = ("cur", tr.cur[r][t], cur[t])
+            elif ilist(best[t]) != tr.best[r][t]:
+                bad = ("best", tr.best[r][t], best[t])
+            elif ilist(vt[t]) != tr.vt[r][t]:
+                bad = ("vt", tr.vt[r][t], vt[t])
+            elif tr.cbsf[r][t] is not None and (int(ccur[t]), int(cbsf[t]), int(rew[t])) != (tr.ccur[r][t], tr.cbsf[r][t], tr.rew[r][t]):
+                bad = ("costs", (tr.ccur[r][t], tr.cbsf[r][t], tr.rew[r][t]), (ccur[t], cbsf[t], rew[t]))
+            if bad:
+                ctx.disagreement(f"batched _step: {bad[0]} of row {r} differs at step {t} ({what})",
+                                 {"kind": kind, "n": n, "B": B, "row": r, "step": t, "real": bad[1], "model": bad[2],
+                                  "rec0": [tr.cur[q][0] for q in range(B)], "moves": [tr.moves[q][:t] for q in range(B)]})
+                return
+    ctx.count(f"{what}.batched-model-batches")
+    ctx.count(f"{what}.batched-model-rows", B)
+
+
 def real_moves(ctx, env, kind: int, n: int, td, how: str) -> List[List[int]]:
     """one admitted move per row, drawn through the REAL mask / the env's own sampler"""
     B = td.batch_size[0]
@@ -819,6 +854,7 @@ def run_bsf(ctx):
         if tr.inexact:
             ctx.count("bsf.inexact-cost-rows")
         what = {0: "pdprr", 2: "kopt2"}.get(kind, "koptk")
+        judge_batch(ctx, kind, n, geos, tr, "bsf")
         for r in range(B):
             judge_trace(ctx, kind, n, geos[r], tr, r, f"bsf.{what}", opts=opts)
             ctx.count(f"bsf.{what}.n={n}")
@@ -950,6 +986,7 @@ def run_policies(ctx):
                 tr.moves[r].append(mv[r])
             td = env.step(td)["next"]
             tr.snap(td, False)
+        judge_batch(ctx, kind, n, geos, tr, "policy")
         for r in range(B):
             judge_trace(ctx, kind, n, geos[r], tr, r, f"policy.{name}", admitted=adm[r], opts=opts)
             ctx.count(f"policy.{name}.n={n}")
@@ -1132,9 +1169,10 @@ def replay_checker(ctx, w):
 # ------------------------------------------------------------------------------------------------
 
 MODEL_NOTE = ("TSPkoptEnv / PDPRuinRepairEnv modelled per instance on successor arrays (Rl4co/Env/Improve.lean); "
-              "`argsort` is modelled as the inverse permutation (it is only applied to permutations); tour lengths are "
-              "integers in ticks (exact-stream coordinates make the float32 costs exact); batching is outside the model "
-              "(rows are compared one by one). Magnitudes: coordinates are integral point sets scaled by 2^-16 … 2^6 and shifted "
+              "`argsort` is modelled as the indices sorted by value and PROVED to be the inverse on permutation arrays; the decision-critical "
+              "tokens of the source are parameters regenerated from the AST (harness/probes/improve.py) with `decide` obligations; tour lengths are "
+              "integers in ticks (exact-stream coordinates make the float32 costs exact); batching is modelled "
+              "column-wise (`batchStepP`, proved equal to the per-row map and compared with the real batch). Magnitudes: coordinates are integral point sets scaled by 2^-16 … 2^6 and shifted "
               "by integers up to 1000 (all float32-exact), so improvements from ~1e-8 to >1 occur, next to equal-cost moves; the "
               "model works on the unscaled integer matrix. `step_to_solution` (the solution_to branch of `_step`) is a move of the "
               "model too (constant operator; Bsf.* theorems hold for ANY operator). Environment options (init_sol_type, "
@@ -1159,9 +1197,23 @@ if _has("Rl4co/Props/C09/ImproveBsf.lean"):
         Theorem("Rl4co.Improve.Bsf.bsf_antitone", "proved", "cost_bsf never increases along any move sequence"),
         Theorem("Rl4co.Improve.Bsf.valid_of_run", "proved",
                 "if admitted moves preserve a validity predicate, rec_current AND rec_best stay valid along any admitted run"),
+        Theorem("Rl4co.Improve.Code.koptParams_std", "proved",
+                "translator obligation (decide): the tokens extracted from TSPkoptEnv._step/_reset (new_obj < cost_bsf, where-order, "
+                "reward sign, reward > 0.0 incl. the constant, visited_time stamps/trip counts) are the ones the theorems need"),
+        Theorem("Rl4co.Improve.Code.pdpParams_std", "proved", "the same obligation for PDPRuinRepairEnv._step/_reset"),
+        Theorem("Rl4co.Improve.Code.step_kopt_eq", "proved", "the executed, token-parametrised `_step` of TSPkoptEnv is the `step` of the theorems"),
+        Theorem("Rl4co.Improve.Code.step_pdp_eq", "proved", "the same for PDPRuinRepairEnv"),
+        Theorem("Rl4co.Improve.Code.bsf_invariants", "proved",
+                "Bsf invariants for the executed `_reset`/`_step` (tokens from the source): costs = lengths of stored tours, "
+                "cost_bsf ≤ length of the current tour after every prefix of the move sequence"),
+        Theorem("Rl4co.Improve.Code.step_vt", "proved", "the executed `_step` stores visited_time = the walk stamps the mask theorems use"),
+        Theorem("Rl4co.Improve.Batch.batchStep_eq_map", "proved",
+                "the column-wise batched `_step` (masked in-place overwrite of rec_best) = per-row `_step`, any batch size, any tokens"),
+        Theorem("Rl4co.Improve.Batch.batchRun_row", "proved",
+                "∀ batch ∀ row: after any number of batched steps row b is the per-instance run on row b's instance and actions"),
     ]
 register(Unit("C09", "bsf", run_bsf, drivers=["drv_improve"], replay=replay_trace, weight=1.0,
-              lean_modules=["Rl4co.Props.C09.ImproveBsf"] if _bsf_thms else [],
+              lean_modules=["Rl4co.Props.C09.ImproveBsf", "Rl4co.Props.C09.ImproveCode", "Rl4co.Props.C09.ImproveBatch"] if _bsf_thms else [],
               theorems=_bsf_thms,
               assumptions=[MODEL_NOTE] + ([] if _bsf_thms else [_NO_THM])))
 
@@ -1175,9 +1227,16 @@ if _has("Rl4co/Props/C09/ImprovePdp.lean"):
                 "after any sequence of mask-admitted moves rec_current and rec_best are valid PDP tours"),
         Theorem("Rl4co.Improve.PdpRR.randomAction_admitted", "proved",
                 "every (pair, first, second) `_random_action` can emit is in range and admitted by get_mask"),
+        Theorem("Rl4co.Improve.Code.pdpOp_ok", "proved",
+                "translator obligation: `pair_index = action[:,0] + 1`, delivery spliced after `second` BEFORE pickup after `first`"),
+        Theorem("Rl4co.Improve.Code.pdpMask_ok", "proved", "translator obligation: masked when visited_time[first] > visited_time[second]"),
+        Theorem("Rl4co.Improve.Code.pdp_preserves", "proved",
+                "PdpRR.preserves for the EXECUTED operator and mask (tokens from the source)"),
+        Theorem("Rl4co.Improve.argsort_eq", "proved",
+                "`argsort` (indices sorted by value) of a permutation array is its inverse: rec[x] = y ⇒ argsort(rec)[y] = x"),
     ]
 register(Unit("C09", "pdprr", run_pdprr, drivers=["drv_improve"], replay=replay_trace,
-              lean_modules=["Rl4co.Props.C09.ImprovePdp"] if _pdp_thms else [],
+              lean_modules=["Rl4co.Props.C09.ImprovePdp", "Rl4co.Props.C09.ImproveCode"] if _pdp_thms else [],
               theorems=_pdp_thms,
               assumptions=[MODEL_NOTE,
                            "`_random_action` is modelled as the relation 'any (pair, first, second) with pair < gs/2 whose mask "
@@ -1204,9 +1263,14 @@ if _has("Rl4co/Props/C09/ImproveKopt.lean"):
                 "hence every k-opt move the builder can emit maps a single n-cycle to a single n-cycle"),
         Theorem("Rl4co.Improve.Kopt.kopt_run_valid", "proved",
                 "after any sequence of builder-admitted k-opt moves rec_current and rec_best are single n-cycles"),
+        Theorem("Rl4co.Improve.Code.kopt2Loop_ok", "proved", "translator obligation: the 2-opt reverse loop runs ≥ num_loc − 1 times"),
+        Theorem("Rl4co.Improve.Code.koptKLoop_ok", "proved", "translator obligation: the k-opt relink loop runs num_loc − 2 times"),
+        Theorem("Rl4co.Improve.Code.twoOpt_preserves", "proved", "Kopt.twoOpt_preserves for the EXECUTED 2-opt operator (trip count from the source)"),
+        Theorem("Rl4co.Improve.Code.kopt_preserves", "proved", "Kopt.kopt_preserves for the EXECUTED k-opt operator"),
+        Theorem("Rl4co.Improve.argsort_of_cycle", "proved", "on a tour `rec.argsort()` is the predecessor array (proved, not assumed)"),
     ]
 register(Unit("C09", "kopt", run_kopt, drivers=["drv_improve"], replay=replay_trace,
-              lean_modules=["Rl4co.Props.C09.ImproveKopt"] if _kopt_thms else [],
+              lean_modules=["Rl4co.Props.C09.ImproveKopt", "Rl4co.Props.C09.ImproveCode"] if _kopt_thms else [],
               theorems=_kopt_thms,
               assumptions=[MODEL_NOTE,
                            "k-opt (k_max > 2): TSPkoptEnv has no mask of its own; 'admitted' means admitted by the masks the action "
@@ -1241,6 +1305,26 @@ for _kind, _name in ((2, "kopt"), (0, "pdprr")):
                              "sub-tour) is accepted"),
                      Theorem("Rl4co.Improve.Check.pdp_sound_partial", "partial",
                              "accepted ∧ single cycle ⇒ every pickup precedes its delivery")]
+        if _kind == 2:
+            _thms += [Theorem("Rl4co.Improve.Check.kopt_accepts_iff", "proved", "EXACT: accepted ⟺ the successor array is a permutation of 0..n-1"),
+                      Theorem("Rl4co.Improve.Check.isTour_iff_perm_connected", "proved",
+                              "single cycle ⟺ permutation ∧ the n-step walk from node 0 meets every node"),
+                      Theorem("Rl4co.Improve.Check.kopt_valid_iff", "proved",
+                              "soundness up to the sub-tour defect: valid tour ⟺ accepted ∧ walk from 0 meets every node"),
+                      Theorem("Rl4co.Improve.Check.code_checkKopt_eq", "proved",
+                              "translator tie: the executed checker model (tokens from the source) is the one of the theorems")]
+        else:
+            _thms += [Theorem("Rl4co.Improve.Check.pdp_accepts_iff", "proved",
+                              "EXACT: accepted ⟺ permutation ∧ for every pair the LAST visit of the delivery along the gs-step walk from "
+                              "the depot comes after the last visit of the pickup (never visited = 0)"),
+                      Theorem("Rl4co.Improve.Check.visitedTime_eq_lastHit", "proved",
+                              "the visited_time walk on ANY array stamps each node with the position of its last visit"),
+                      Theorem("Rl4co.Improve.Check.pdp_valid_iff", "proved",
+                              "soundness up to the sub-tour defect: valid PDP tour ⟺ accepted ∧ walk from the depot meets every node"),
+                      Theorem("Rl4co.Improve.Check.code_checkPdp_eq", "proved",
+                              "translator tie: the executed checker model (tokens from the source) is the one of the theorems")]
+        _thms.append(Theorem("Rl4co.Improve.Check.checkParams_ok", "proved",
+                             "translator obligation: `arange == sort(rec_best)`, `visited_time[pickups] < visited_time[deliveries]`, stamps i+1"))
         _thms.append(Theorem("Rl4co.Improve.isTourB_iff", "proved",
                              "the executable run-time oracle isTourB decides the declarative IsTour (single n-cycle)"))
         if _kind == 0:
